@@ -13,14 +13,16 @@ use crate::alpha::error::Error;
 use crate::alpha::included;
 
 use enumset::EnumSet;
-use std::collections::HashSet;
+use std::collections::BTreeSet;
 
 /// Share public symbols between modules.
 pub fn expand(modules: &mut [(std::path::PathBuf, Vec<Declaration>)])
 {
 	let keys: Vec<std::path::PathBuf> =
 		modules.iter().map(|(k, _v)| k.clone()).collect();
-	let mut imports = HashSet::new();
+	// The pairs are visited in a fixed order, so that the order of the
+	// spliced declarations (and hence the IR) does not depend on hashing.
+	let mut imports = BTreeSet::new();
 
 	for (offset_of_includer, module) in modules.iter_mut().enumerate()
 	{
